@@ -459,7 +459,7 @@ def summarise(results, harnesses, tier, wall_s, build_s, extra_cov=None):
     return cov
 
 
-def check(prop, harness_specs, tier, assumptions):
+def check(prop, harness_specs, tier, assumptions, expected_probes=()):
     """harness_specs: list of (harness_name, extra_build_flags, budget_share)."""
     t0 = time.time()
     total = QUICK_S if tier == "quick" else THOROUGH_S
@@ -533,6 +533,10 @@ def check(prop, harness_specs, tier, assumptions):
     cov = summarise(all_results, [h[0] for h in harness_specs], tier, wall, build_s,
                     {"runs_per_harness": per, "failing_runs": len(fails), "failure_classes": sorted(set(r["cls"] for r in fails)),
                      "regression_replays_run": regress_run})
+    dead = [p for p in expected_probes if cov["reach_counters"].get(p, {}).get("hits", 0) == 0]
+    cov["rare_branch_probes_never_hit"] = dead
+    if dead and tier == "thorough" and not violations:
+        faults_m.append("probes never hit in a thorough batch (workload or fault mix must change): %s" % dead)
     write_evidence(prop, tier, base_seed(), cov, wall, len(violations), assumptions)
     log("%s: %d runs, %d distinct non-trivial, %d failing, %.0fs" % (prop, cov["evaluations"], cov["distinct_nontrivial"], len(fails), wall))
     return finish(prop, violations, known_lines, faults_m)
